@@ -144,7 +144,7 @@ impl ScriptGen {
                     .collect(),
             ),
         };
-        ScriptIter { script, pos: 0, pulls: self.pulls.clone(), call_no, prefetches: self.prefetches.clone() }
+        ScriptIter { script, pos: 0, pulls: self.pulls.clone(), call_no, prefetches: self.prefetches.clone(), suspended: false }
     }
 }
 
@@ -154,6 +154,8 @@ struct ScriptIter {
     pulls: Rc<Cell<usize>>,
     call_no: usize,
     prefetches: Rc<RefCell<Vec<(usize, bool)>>>,
+    /// the stream form suspends once before every item (Pending, waker notified at once): a source that is not immediately ready
+    suspended: bool,
 }
 
 impl ScriptIter {
@@ -174,7 +176,13 @@ impl Iterator for ScriptIter {
 
 impl futures::Stream for ScriptIter {
     type Item = FluentBundleResult<FluentResource>;
-    fn poll_next(mut self: std::pin::Pin<&mut Self>, _cx: &mut std::task::Context<'_>) -> std::task::Poll<Option<Self::Item>> {
+    fn poll_next(mut self: std::pin::Pin<&mut Self>, cx: &mut std::task::Context<'_>) -> std::task::Poll<Option<Self::Item>> {
+        if !self.suspended {
+            self.suspended = true;
+            cx.waker().wake_by_ref();
+            return std::task::Poll::Pending;
+        }
+        self.suspended = false;
         self.pull().into()
     }
 }
@@ -299,10 +307,26 @@ fn finish<T>(r: Result<T, LocalizationError>, f: impl Fn(&T) -> Sexp, errors: &[
 }
 
 /// One request through the public API of a bundle set.
-fn request(bundles: &Bundles<ScriptGen>, req: &Sexp, pulls: &Rc<Cell<usize>>) -> Sexp {
+/// The caller's error list is SHARED by all requests of a case and never cleared (callers may pass a list that already holds
+/// entries): what a request reports is the tail it appended.
+fn request(bundles: &Bundles<ScriptGen>, req: &Sexp, pulls: &Rc<Cell<usize>>, shared: &mut Vec<LocalizationError>) -> Sexp {
     let r = req.as_list();
     let sync_api = r[1].is_sym("sync");
-    let mut errors = vec![];
+    let before = shared.len();
+    let mut errors = std::mem::take(shared);
+    let out = request_inner(bundles, r, sync_api, &mut errors, before, pulls);
+    *shared = errors;
+    out
+}
+
+fn request_inner(
+    bundles: &Bundles<ScriptGen>,
+    r: &[Sexp],
+    sync_api: bool,
+    mut errors: &mut Vec<LocalizationError>,
+    before: usize,
+    pulls: &Rc<Cell<usize>>,
+) -> Sexp {
     match r[0].as_str() {
         "value" => {
             let id = r[2].as_str().to_string();
@@ -312,7 +336,7 @@ fn request(bundles: &Bundles<ScriptGen>, req: &Sexp, pulls: &Rc<Cell<usize>>) ->
             } else {
                 Ok(futures::executor::block_on(bundles.format_value(&id, args.as_ref(), &mut errors)))
             };
-            finish(res, enc_value, &errors, pulls.get())
+            finish(res, enc_value, &errors[before..], pulls.get())
         }
         "values" => {
             let keys = dec_keys(&r[2]);
@@ -321,7 +345,7 @@ fn request(bundles: &Bundles<ScriptGen>, req: &Sexp, pulls: &Rc<Cell<usize>>) ->
             } else {
                 Ok(futures::executor::block_on(bundles.format_values(&keys, &mut errors)))
             };
-            finish(res, |v| list(v.iter().map(enc_value).collect()), &errors, pulls.get())
+            finish(res, |v| list(v.iter().map(enc_value).collect()), &errors[before..], pulls.get())
         }
         "messages" => {
             let keys = dec_keys(&r[2]);
@@ -330,7 +354,7 @@ fn request(bundles: &Bundles<ScriptGen>, req: &Sexp, pulls: &Rc<Cell<usize>>) ->
             } else {
                 Ok(futures::executor::block_on(bundles.format_messages(&keys, &mut errors)))
             };
-            finish(res, |v| list(v.iter().map(enc_message).collect()), &errors, pulls.get())
+            finish(res, |v| list(v.iter().map(enc_message).collect()), &errors[before..], pulls.get())
         }
         _ => panic!("HARNESS: request"),
     }
@@ -344,7 +368,8 @@ fn run_walk(c: &[Sexp]) -> Sexp {
     let provider = Locales { inner: Rc::new(RefCell::new(vec![])) };
     let loc = Localization::with_env(Vec::<ResourceId>::new(), sync, provider, gen);
     let bundles = loc.bundles();
-    list(c[3].as_list().iter().map(|req| request(bundles, req, &pulls)).collect())
+    let mut shared = vec![];
+    list(c[3].as_list().iter().map(|req| request(bundles, req, &pulls, &mut shared)).collect())
 }
 
 // ------------------------------------------------------------------------------------------------
